@@ -140,16 +140,16 @@ type Space struct {
 
 // SpaceID is the serialisable identity of a space (for replays).
 type SpaceID struct {
-	Family string `json:"family"`
-	Regime int    `json:"regime"`
+	Family string  `json:"family"`
+	Regime int     `json:"regime"`
 	GapsMS []int64 `json:"gaps_ms"`
-	DeltaS int64  `json:"delta_s"`
-	Skews  []int  `json:"skews"`
-	Depth  int    `json:"depth"`
-	Extra  int    `json:"extra_depth"`
-	Touch2 bool   `json:"touch2"`
-	FirstV int    `json:"first_version"`
-	StepV  int    `json:"version_step"`
+	DeltaS int64   `json:"delta_s"`
+	Skews  []int   `json:"skews"`
+	Depth  int     `json:"depth"`
+	Extra  int     `json:"extra_depth"`
+	Touch2 bool    `json:"touch2"`
+	FirstV int     `json:"first_version"`
+	StepV  int     `json:"version_step"`
 }
 
 func (s *Space) id() SpaceID {
@@ -186,12 +186,12 @@ func (s *Space) name() string {
 // status is the summary of the current world the transition guards need. It is
 // maintained next to the histsim world (which holds the full ground truth).
 type status struct {
-	vis      [4]bool // child visible
-	pvis     bool    // parent visible
-	list     int     // menu index of the last visible parent version
-	faults   int     // fault transitions so far
-	grpPar   bool    // the current same-instant group contains a parent version
-	grpMulti bool    // ... contains an upload writing more than one element
+	vis      [4]bool          // child visible
+	pvis     bool             // parent visible
+	list     int              // menu index of the last visible parent version
+	faults   int              // fault transitions so far
+	grpPar   bool             // the current same-instant group contains a parent version
+	grpMulti bool             // ... contains an upload writing more than one element
 	sinceDel [4]time.Duration // for a deleted child: time since its delete
 }
 
